@@ -370,62 +370,88 @@ func Canon(tr []string) []string {
 }
 
 // Match reports whether the real trace is admitted by the model trace, which
-// may contain optional-prefix regions.
+// may contain optional-prefix regions (possibly nested).
+//
+// A region admits any prefix of what it holds. What it holds is a sequence of
+// events and of nested regions, and a nested region that was cut short does not
+// end the enclosing one: `g(p(1), (f6(pe(2), …) ?? h(p(9))))` with g's and f6's
+// operand lists both optional admits p1 p9 (f6 refused before its first
+// operand, g's list carried on). So the language of a region is the union over
+// k of L(x1)…L(xk), with L(event) = {event} and L(region) its own (prefix-closed)
+// language - not the prefixes of the flattened event list. Which prefix was
+// taken is not always decided by the next event alone, so every cut is tried;
+// the furthest mismatch is reported.
 func Match(model, real []string) (bool, int, int) {
-	// An optional region admits any prefix of its events. Which prefix was taken
-	// is not always decided by the next event alone (the region may begin with an
-	// event equal to the one that follows it), so every prefix length is tried;
-	// the furthest mismatch is reported.
-	bestI, bestJ := 0, 0
-	var rec func(i, j int) bool
-	rec = func(i, j int) bool {
+	type node struct {
+		ev     string
+		pos    int // index in model (for the mismatch report)
+		sub    []node
+		region bool
+	}
+	// parse
+	var parse func(i int, inRegion bool) ([]node, int)
+	parse = func(i int, inRegion bool) ([]node, int) {
+		var out []node
 		for i < len(model) {
-			if model[i] == refmodel.OptBegin {
-				// collect the region's events (nested markers are transparent)
-				depth := 1
-				k := i + 1
-				var evs []string
-				for k < len(model) && depth > 0 {
-					switch model[k] {
-					case refmodel.OptBegin:
-						depth++
-					case refmodel.OptEnd:
-						depth--
-					default:
-						evs = append(evs, model[k])
-					}
-					k++
+			switch model[i] {
+			case refmodel.OptBegin:
+				sub, next := parse(i+1, true)
+				out = append(out, node{region: true, sub: sub, pos: i})
+				i = next
+			case refmodel.OptEnd:
+				if inRegion {
+					return out, i + 1
 				}
-				// longest matching prefix first
-				n := 0
-				for n < len(evs) && j+n < len(real) && real[j+n] == evs[n] {
-					n++
-				}
-				for ; n >= 0; n-- {
-					if rec(k, j+n) {
-						return true
-					}
-				}
-				return false
+				i++ // stray end marker: ignore
+			default:
+				out = append(out, node{ev: model[i], pos: i})
+				i++
 			}
-			if j >= len(real) || real[j] != model[i] {
-				if j > bestJ || (j == bestJ && i > bestI) {
-					bestI, bestJ = i, j
-				}
-				return false
-			}
-			i++
-			j++
 		}
-		if j == len(real) {
-			return true
-		}
+		return out, i
+	}
+	top, _ := parse(0, false)
+	bestI, bestJ := 0, 0
+	note := func(i, j int) {
 		if j > bestJ || (j == bestJ && i > bestI) {
 			bestI, bestJ = i, j
 		}
+	}
+	steps := 0
+	var seq func(ns []node, j int, optional bool, endPos int, k func(int) bool) bool
+	seq = func(ns []node, j int, optional bool, endPos int, k func(int) bool) bool {
+		steps++
+		if steps > 5000000 {
+			// give up on pathological nestings: admitted (never a false alarm); does not occur
+			// with the generator's sizes (<= 200 events, nesting <= 4)
+			return true
+		}
+		if optional && k(j) {
+			return true // the region is cut here
+		}
+		if len(ns) == 0 {
+			if optional {
+				return false // the cut at the end was tried above
+			}
+			return k(j)
+		}
+		n := ns[0]
+		if n.region {
+			return seq(n.sub, j, true, n.pos, func(j2 int) bool { return seq(ns[1:], j2, optional, endPos, k) })
+		}
+		if j < len(real) && real[j] == n.ev {
+			return seq(ns[1:], j+1, optional, endPos, k)
+		}
+		note(n.pos, j)
 		return false
 	}
-	if rec(0, 0) {
+	if seq(top, 0, false, len(model), func(j int) bool {
+		if j == len(real) {
+			return true
+		}
+		note(len(model), j)
+		return false
+	}) {
 		return true, len(model), len(real)
 	}
 	return false, bestI, bestJ
